@@ -71,6 +71,9 @@ type FuncContract struct {
 	MathParams []SParam
 	Patterns   []*Clause
 	Uses       []string // math lemmas made available (as quantified axioms) in this function's VC
+	MayPanic   bool   // explicit panic(...) statements are not obligations
+	Extern     bool   // assumed contract on a dependency (typed parameters in MathParams)
+	ExternName string // qualified name of the dependency function, e.g. container/heap.Fix
 }
 
 // GhostVar is specification-only state of one function activation, updated at call sites
@@ -134,7 +137,7 @@ type ContractFile struct {
 var clauseKeywords = map[string]bool{
 	"serves": true, "requires": true, "ensures": true, "modifies": true, "nowrap": true,
 	"arith": true, "loop": true, "invariant": true, "ghost": true, "trusted": true,
-	"atcall": true, "uses": true, "pattern": true, "opaque": true, "loopmodifies": true, "nopanic": true, "nilable": true, "mutates": true, "linear": true, "ghostvar": true, "oncall": true, "assume-invariant": true,
+	"atcall": true, "uses": true, "pattern": true, "opaque": true, "loopmodifies": true, "nopanic": true, "nilable": true, "mutates": true, "linear": true, "ghostvar": true, "oncall": true, "assume-invariant": true, "maypanic": true,
 }
 
 func ParseContractFile(path, pkgPath string) (*ContractFile, error) {
@@ -246,6 +249,56 @@ func ParseContractText(path, pkgPath, text string) (*ContractFile, error) {
 			cf.Funcs = append(cf.Funcs, fc)
 			curF, curLoop = fc, nil
 			contTarget = nil
+		case first == "extern" && strings.HasPrefix(rest, "func "):
+			// assumed contract on a function outside the verified set (a dependency), specialised
+			// by the static types of the arguments at the call site (interface-typed parameters
+			// are matched against the value boxed at the call):
+			//   extern func container/heap.Fix(h *txByPriceAndTime, i int)
+			hdr := strings.TrimSpace(strings.TrimPrefix(rest, "func "))
+			k := strings.Index(hdr, "(")
+			if k < 0 {
+				return nil, fmt.Errorf("%s:%d: bad extern header", path, rl.line)
+			}
+			depth, e := 0, -1
+			for i := k; i < len(hdr); i++ {
+				if hdr[i] == '(' {
+					depth++
+				} else if hdr[i] == ')' {
+					depth--
+					if depth == 0 {
+						e = i
+						break
+					}
+				}
+			}
+			if e < 0 {
+				return nil, fmt.Errorf("%s:%d: bad extern parameter list", path, rl.line)
+			}
+			ps, err := parseParamList(hdr[k+1 : e])
+			if err != nil {
+				return nil, fmt.Errorf("%s:%d: %v", path, rl.line, err)
+			}
+			fc := &FuncContract{Header: s, Line: rl.line, Arith: "int", Extern: true, ExternName: strings.TrimSpace(hdr[:k]), MathParams: ps, Key: "extern:" + strings.TrimSpace(hdr[:k])}
+			var tys []string
+			for _, p := range ps {
+				fc.Params = append(fc.Params, p.Name)
+				tys = append(tys, p.Type)
+			}
+			fc.Key += "(" + strings.Join(tys, ",") + ")"
+			if tail := strings.TrimSpace(hdr[e+1:]); strings.HasPrefix(tail, "(") && strings.HasSuffix(tail, ")") {
+				rs, err := parseParamList(tail[1 : len(tail)-1])
+				if err != nil {
+					return nil, fmt.Errorf("%s:%d: %v", path, rl.line, err)
+				}
+				for _, r := range rs {
+					fc.Results = append(fc.Results, r.Name)
+				}
+			}
+			fc.Pkg, fc.File = pkgPath, path
+			fc.Trusted, fc.TrustWhy = true, "assumed contract on a dependency"
+			cf.Funcs = append(cf.Funcs, fc)
+			curF, curLoop = fc, nil
+			contTarget = nil
 		case first == "func":
 			fc, err := parseFuncHeader(s, rl.line)
 			if err != nil {
@@ -293,6 +346,11 @@ func ParseContractText(path, pkgPath, text string) (*ContractFile, error) {
 				contTarget = nil
 			case "nowrap":
 				curF.NoWrap = true
+				contTarget = nil
+			case "maypanic":
+				// explicit panic statements are documented behaviour of this function: they end
+				// the path without an obligation (run-time panics - bounds, nil - stay obligations)
+				curF.MayPanic = true
 				contTarget = nil
 			case "assume-invariant":
 				if curLoop == nil {
